@@ -99,10 +99,63 @@ Verdict soundProp(Ctx& c) {
   return pbt::pass();
 }
 
+// ---- binder confusion: the type a binder gives a variable must be the type of the value it is bound to at run time ----
+// A binder over a set of tuples declares its variables through every pattern form (plain, tuple pattern, nested pattern,
+// enumerated declaration mixing patterns and plain names, in every order); the body is generated well-typed and then some
+// variable uses are swapped.  Whatever the checker still accepts must evaluate safely to the reported type.
+Verdict binderProp(Ctx& c) {
+  TypedGen g(c);
+  g.makeContext();
+  // element type: a tuple of 2-3 components of different shapes
+  std::vector<Ty> comps; const int nc = c.ipick(2, 3);
+  for (int i = 0; i < nc; ++i) comps.push_back(i == 0 ? g.randBase() : g.randType(1 + (i % 2)));
+  const Ty et = Ty::Tuple(comps);
+  const auto saved = g.scope;
+  EP dom = g.genTerm(Ty::Set(et), 1);
+  // declaration: 1-3 declarators, each a plain name or a (possibly nested) tuple pattern
+  const int form = c.ipick(0, 4);  // 0 forall, 1 exists, 2 declarative, 3 imperative iterate, 4 recursion
+  std::vector<EP> decls; const int nd = (form <= 1) ? c.ipick(1, 3) : 1;
+  for (int i = 0; i < nd; ++i) decls.push_back(g.declare(et, true));
+  EP decl = decls.size() == 1 ? decls[0] : mk(TID::NT_ENUM_DECL, decls);
+  EP body = g.genLogic(c.ipick(1, 2));
+  EP e;
+  if (form <= 1) e = mk(form == 0 ? TID::FORALL : TID::EXISTS, {decl, dom, body});
+  else if (form == 2) e = mk(TID::NT_DECLARATIVE_EXPR, {decl, dom, body});
+  else if (form == 3) { const Ty vt = g.scope.back().type; EP value = g.genTerm(vt, 1); e = mk(TID::NT_IMPERATIVE_EXPR, {value, mk(TID::ITERATE, {decl, dom}), body}); }
+  else { EP init = g.genTerm(et, 1); g.scope = saved; EP var = g.declare(et, true); EP step = g.genTerm(et, 1); e = mk(TID::NT_RECURSIVE_FULL, {var, init, g.genLogic(1), step}); }
+  g.scope = saved;
+  int applied = 0;
+  const int swaps = c.ipick(0, 3);
+  if (swaps) e = confuseLocals(c, e, swaps, &applied);
+  const std::string text = render(e);
+  c.show << showGamma(g.G) << "\n  binder(" << applied << " uses swapped) " << text;
+  c.exec();
+  LibEnv env(g.G, false);
+  if (!env.buildError.empty()) return pbt::discard("function-text");
+  rl::Auditor audit(env, env.valueContext(), env.astContext());
+  const bool accepted = audit.CheckType(text, rl::Syntax::MATH);
+  c.label(std::string("binder:") + (applied ? "confused" : "as-generated") + (accepted ? ":accepted" : ":rejected"));
+  static const char* forms[] = {"forall", "exists", "declarative", "imperative", "recursion"};
+  c.label(std::string("binder-form:") + forms[form] + (nd > 1 ? "-enumerated" : ""));
+  if (!accepted) { CHECK(audit.Errors().HasCriticalErrors(), "reject-without-error", "'" + text + "' rejected without a critical error"); return pbt::pass(); }
+  const rl::ExpressionType libType = audit.GetType();
+  const Ty reported = fromLibExprType(libType);
+  c.nontrivial = true;
+  for (const bool emptyData : {false, true}) {
+    const Gamma G2 = emptyData ? emptied(g.G) : g.G;
+    const auto res = pbt::inChild([&] { return evalAccepted(c, G2, text, rl::Syntax::MATH, false, reported, libType, emptyData ? "empty-data" : "data"); }, 4);
+    if (res.status == pbt::ChildResult::TIMEOUT) { c.count("inconclusive-timeout"); continue; }
+    if (res.status == pbt::ChildResult::CRASH) return pbt::fail("crash", std::string("evaluation of accepted '") + text + "' crashed: " + res.crashInfo);
+    if (res.verdict.kind != Verdict::PASS) return res.verdict;
+  }
+  return pbt::pass();
+}
+
 }  // namespace
 
 int main(int argc, char** argv) {
   std::vector<pbt::Prop> props;
-  props.push_back({"accepted_evaluates_safely", soundProp, 2500, 50000, false, false, "generated expressions and near-miss mutants; accepted ones evaluated under 2-3 data contexts"});
+  props.push_back({"accepted_evaluates_safely", soundProp, 2000, 50000, false, false, "generated expressions and near-miss mutants; accepted ones evaluated under 2-3 data contexts"});
+  props.push_back({"binder_confusion", binderProp, 1000, 30000, false, false, "binders of every pattern form over sets of tuples; variable uses swapped; accepted ones evaluated"});
   return pbt::main(argc, argv, "C02", props);
 }
